@@ -139,6 +139,8 @@ impl Server for LocalServer {
             parent_version_id,
             history_segment,
         })?;
+        #[cfg(gothenburgbitfactory_taskchampion_verif)]
+        crate::server::verif::failpoint("local.add_version.between")?;
         self.set_latest_version_id(version_id)?;
 
         Ok((AddVersionResult::Ok(version_id), SnapshotUrgency::None))
